@@ -43,7 +43,7 @@ func c17Cells(tier string) []string {
 			if l > 262144 && !(strings.HasPrefix(c, "ra-comment") || strings.HasPrefix(c, "yaml") || strings.HasPrefix(c, "conf") || strings.HasPrefix(c, "rules-line") || strings.HasPrefix(c, "include-except-X")) {
 				continue // regex entries are capped (a 1 MiB literal makes the regex library itself slow)
 			}
-			for _, pos := range []string{"first", "middle", "last"} {
+			for _, pos := range []string{"first", "middle", "last", "only"} {
 				for _, nl := range []string{"nl", "nonl"} {
 					cells = append(cells, fmt.Sprintf("%s|%d|%s|%s", c, l, pos, nl))
 				}
@@ -79,6 +79,8 @@ type c17Built struct {
 
 func place(short []string, long string, pos string) []string {
 	switch pos {
+	case "only":
+		return []string{long}
 	case "first":
 		return append([]string{long}, short...)
 	case "last":
@@ -108,6 +110,9 @@ func c17Build(p *C17Params) *c17Built {
 	w.Put("crs/rules/REQUEST-942-APPLICATION-ATTACK-SQLI.conf", rules)
 	ra := "crs/regex-assembly/942100.ra"
 	short := p.Short
+	if p.Pos == "only" {
+		short = nil
+	}
 	words := func(long string) []string { return place(short, long, p.Pos) }
 	switch p.Carrier {
 	case "ra-entry", "ra-block-entry", "ra-comment":
@@ -367,7 +372,7 @@ func evalC17(sc *Scenario, sim *Sim) ([]Violation, bool, string) {
 func init() {
 	register(&Property{
 		ID: "C17", Level: "fault_enumeration",
-		Rule: "cells = carrier/command in {entry in a rule file (generate, generate -, format, update), entry inside an assemble block, comment line (generate, format), entry in an include file, include with suffix pairs, include-except include file, exclude file, test payload line (renumber-tests), rule line in a .conf (update-copyright), comment line in the rules file (update)} x line length in {1, 100, 4096, 65534, 65535, 65536, 65537, 70000, 262144, 1048576 (regex entries capped at 262144; the exclude-file line is only compared, never compiled, and goes up to 1 MiB)} x position {first, middle, last} x final newline {yes, no}; every cell is enumerated in every run with seeded short lines around the long one and a seeded schedule. Oracle: exit != 0 (loud), or complete: generate / update - every entry of the file, before and after the long line and the long one itself, is matched by the produced regex (and entries listed after the long line of an exclude file stay excluded); rewriters - the rewritten file has every line of a complete rewrite, the long line byte-identical. Non-trivial = the line is at least 65534 bytes long; distinct = distinct cells.",
+		Rule: "cells = carrier/command in {entry in a rule file (generate, generate -, format, update), entry inside an assemble block, comment line (generate, format), entry in an include file, include with suffix pairs, include-except include file, exclude file, test payload line (renumber-tests), rule line in a .conf (update-copyright), comment line in the rules file (update)} x line length in {1, 100, 4096, 65534, 65535, 65536, 65537, 70000, 262144, 1048576 (regex entries capped at 262144; the exclude-file line is only compared, never compiled, and goes up to 1 MiB)} x position {first, middle, last, the only line} x final newline {yes, no}; every cell is enumerated in every run with seeded short lines around the long one and a seeded schedule. Oracle: exit != 0 (loud), or complete: generate / update - every entry of the file, before and after the long line and the long one itself, is matched by the produced regex (and entries listed after the long line of an exclude file stay excluded); rewriters - the rewritten file has every line of a complete rewrite, the long line byte-identical. Non-trivial = the line is at least 65534 bytes long; distinct = distinct cells.",
 		Gen:  genC17, Eval: evalC17,
 		Cells:         c17Cells,
 		ChecksPerCell: func(tier string) int { if tier == "thorough" { return 8 }; return 3 },
